@@ -275,7 +275,8 @@ def _mut(params, env=None):
     return fn
 
 
-HARNESSES = {"faults": _factory, "stuck": _stuck_factory, "faults~temporary-not-notified": _mut}
+from props._cold import cold_factory  # noqa: E402
+HARNESSES = {"cold-fault": cold_factory, "faults": _factory, "stuck": _stuck_factory, "faults~temporary-not-notified": _mut}
 
 
 def replay(harness, params, model):
@@ -298,6 +299,8 @@ def jobs(tier):
     q = tier == "quick"
     out = []
     for f in (("oid", "path") if q else ("oid", "path", "mixed")):
+        # first start over accounts that already hold content: one transient fault at any provider call of the first run (start-up walk included)
+        out.append({"harness": "cold-fault", "params": {"flavour": f, "mode": "fault", "maxat": 45}, "label": "%s/cold-start/1-fault" % f})
         for side in (0, 1):
             for op in OPS:
                 out.append({"harness": "faults", "params": {"flavour": f, "nops": 1, "faults": 1, "maxat": 30 if q else 40, "first": [side, op]},
